@@ -79,6 +79,36 @@ impl Monitor for C05 {
                     }
                 }
             }
+            // the unfiltered listing, and one receiver's listing, read in small pages with `start_after`
+            if post.positions.len() >= 2 {
+                let lim = 1 + (c.step_no as u32 / 4) % 3;
+                let ids = |v: &[mantra_dex_std::farm_manager::Position]| v.iter().map(|p| p.identifier.clone()).collect::<Vec<_>>();
+                let mut raw = post.positions.clone();
+                raw.sort_by(|a, b| a.identifier.cmp(&b.identifier));
+                match c.w.positions_listing_via_query(None, lim) {
+                    Ok(q) => {
+                        if q != raw {
+                            return Err(viol("C05.query_vs_storage", format!("Positions{{}} read in pages of {lim} lists {:?}, storage holds {:?}: custody summed over the listing is not the custody held", ids(&q), ids(&raw))));
+                        }
+                    }
+                    Err(e) => return Err(viol("C05.query_vs_storage", format!("Positions{{}} query failed: {e}"))),
+                }
+                if let Some(o) = post.positions.get(c.step_no % post.positions.len()).map(|p| p.receiver.to_string()) {
+                    let mut mine: Vec<_> = raw.iter().filter(|p| p.receiver.as_str() == o).cloned().collect();
+                    match c.w.positions_listing_via_query(Some(mantra_dex_std::farm_manager::PositionsBy::Receiver(o.clone())), lim) {
+                        Ok(mut q) => {
+                            let dup = q.len() != q.iter().map(|p| &p.identifier).collect::<std::collections::BTreeSet<_>>().len();
+                            q.sort_by(|a, b| a.identifier.cmp(&b.identifier));
+                            mine.sort_by(|a, b| a.identifier.cmp(&b.identifier));
+                            if q != mine || dup {
+                                return Err(viol("C05.query_vs_storage", format!("Positions{{receiver {}}} read in pages of {lim} lists {:?}, storage holds {:?}", c.w.a.name(&o), ids(&q), ids(&mine))));
+                            }
+                        }
+                        Err(e) => return Err(viol("C05.query_vs_storage", format!("Positions query failed: {e}"))),
+                    }
+                }
+                c.stats.bump("probe.c05.position_listing_paged");
+            }
             c.stats.bump("probe.c05.queries_cross_checked");
         }
         let owe = obligations(post);
